@@ -147,8 +147,45 @@ func c09Lifecycle(c *h.Ctx) {
 		c.Count("lifecycle_rounds", 1)
 		c.Distinct(fmt.Sprintf("lifecycle|new-local-faces=%d", len(fresh)))
 	}
+	c09Pipelined(c, d)
 	c09Retransmit(c, d, prod, waitFor)
 	c09UDPAccept(c, d, prod, waitFor)
+}
+
+// c09Pipelined: two local applications send /localhost/nfd commands back to back, without waiting
+// for each other's answer (the exchange "between local applications and the forwarder itself"):
+// each must get the answer to its own command and both commands must take effect.
+func c09Pipelined(c *h.Ctx, d *c17Daemon) {
+	for k := 0; k < c.Pick(6, 60); k++ {
+		id := fmt.Sprintf("lifecycle/pipelined%d", k)
+		c.Eval(1)
+		n1, _ := enc.NameFromStr(fmt.Sprintf("/pl/a%d", k))
+		n2, _ := enc.NameFromStr(fmt.Sprintf("/pl/b%d", k))
+		mk := func(n enc.Name) enc.Name {
+			cp := c17Params(&mgmt.ControlArgs{Name: n, Cost: u64p(uint64(k % 7))})
+			cn, _ := enc.NameFromStr("/localhost/nfd/rib/register")
+			return append(cn, cp)
+		}
+		c1, c2 := mk(n1), mk(n2)
+		d.log = append(d.log, fmt.Sprintf("%s: faces %d and %d send rib/register %s / %s back to back", id, d.app.id, d.app2.id, n1, n2))
+		d.send(d.app, c1, false)
+		d.send(d.app2, c2, false)
+		_, b1 := d.await(d.app, c1, 15*time.Second)
+		_, b2 := d.await(d.app2, c2, 15*time.Second)
+		ok := func(b []byte, n enc.Name, f uint64) bool {
+			if b == nil {
+				return false
+			}
+			r, err := mgmt.ParseControlResponse(enc.NewBufferReader(b), true)
+			return err == nil && r.Val != nil && r.Val.StatusCode == 200 && r.Val.Params != nil && r.Val.Params.Name.Equal(n) && r.Val.Params.FaceId != nil && *r.Val.Params.FaceId == f
+		}
+		if !ok(b1, n1, d.app.id) || !ok(b2, n2, d.app2.id) {
+			d.fail("C09:local-localhost-exchange-broken:pipelined-commands", id, fmt.Sprintf("two local applications sent /localhost/nfd commands back to back; answered correctly (own prefix, own face, status 200): first %v, second %v", ok(b1, n1, d.app.id), ok(b2, n2, d.app2.id)), map[string]any{"commands": d.log[max(0, len(d.log)-4):]})
+			return
+		}
+		c.Count("pipelined_command_pairs", 1)
+	}
+	c.Distinct("lifecycle|pipelined-commands")
 }
 
 // c09Retransmit: the /localhost prefix of the local producer also has a cheaper next hop towards a
